@@ -35,7 +35,7 @@ def simpson_c(f, a, b, n):
 
 def gauss_weighted(a, ff):
     """(1/2) Int_{-1}^{1} exp(-a^2 (1+z)^2) e^{i ff z} dz — the zero-diffraction closed form with walk-off (C05_zero_diffraction)"""
-    return 0.5 * simpson_c(lambda z: math.exp(-a * a * (1 + z) ** 2) * cmath.exp(1j * ff * z), -1.0, 1.0, 4000)
+    return 0.5 * simpson_c(lambda z: math.exp(-a * a * (1 + z) ** 2) * cmath.exp(1j * ff * z), -1.0, 1.0, 400)
 
 
 def box_quantities(p):
@@ -101,6 +101,7 @@ def oracle(ctx, obs):
                           {"kind": "peak", "crystal": st["crystal"], "pm_type": st["pm_type"]},
                           {"setup": desc, "observed": fpm, "expected": q["peak_expected"]})
         # clause 1: shape
+        g0 = abs(gauss_weighted(q["a"], 0.0))
         for smp in s[1:]:
             ff = f64_of_hex(smp["ff"])
             v = abs(cx(smp["v"]))
@@ -110,7 +111,7 @@ def oracle(ctx, obs):
             ctx.seen(("pw", o["p"]["L"], o["p"]["wpx"], smp["t"], o["dir_rad"]))
             ratio = v / fpm if fpm else float("nan")
             sinc = abs(math.sin(ff) / ff) if ff else 1.0
-            general = abs(gauss_weighted(q["a"], ff)) / abs(gauss_weighted(q["a"], 0.0))
+            general = abs(gauss_weighted(q["a"], ff)) / g0
             rep = {"setup": desc, "detuning_rad_per_s": f64_of_hex(smp["t"]), "delta_kz_L_over_2": ff, "ratio_observed": ratio,
                    "abs_sinc": sinc, "zero_diffraction_value_with_walkoff": general,
                    "call": "phasematch_fiber_coupling(ws, wi, &spdc, Integrator::default()) / its value where Delta k_z = 0"}
@@ -187,7 +188,7 @@ def run(ctx):
         ctx.proof_failures.append(("Gen/PMSimpson.v" if "pm_simpson" in m else "Gen/PMIntegrand.v", "translator", m))
     proved = (not msgs) and prove(ctx, "C05", extra_targets=["Proofs/PMCaseTac.vo"])
     quick = ctx.tier == "quick"
-    n_pw, n_pt = (40, 4) if quick else (400, 16)
+    n_pw, n_pt = (120, 4) if quick else (1500, 16)
     obs = run_harness(ctx, binp, ["c05", ctx.seed, n_pw, n_pt], timeout=2400)
     npw = oracle(ctx, obs)
     for o in [x for x in obs if x["kind"] == "pw" and all(1.0 < f64_of_hex(x["p"][k]) < 10.0 for k in ("n_p", "n_s", "n_i"))][:4]:
